@@ -24,6 +24,7 @@ const (
 
 // Prog is the loaded program.
 type Prog struct {
+	gfuncs map[*ssa.Global][]*ssa.Function
 	Dir     string
 	ModPrefix string
 	Fset    *token.FileSet
